@@ -130,7 +130,15 @@ pub fn check_history<T: Sc>(rng: &mut Rng, spec: &CodedSpec, len: usize) -> (u64
             }
             4 => {
                 // derivative index out of range
-                let k = np + match rng.below(3) { 0 => 0, 1 => 1, _ => rng.int(2, 1000) };
+                // P, P+1, far beyond, and indices whose low 32 bits are a valid index
+                let low = rng.below(np);
+                let k = match rng.below(5) {
+                    0 => np,
+                    1 => np + 1,
+                    2 => np + rng.int(2, 1000),
+                    3 => (rng.int(1, 9) << 32) + low,
+                    _ => *rng.pick(&[usize::MAX, usize::MAX - u32::MAX as usize + low, (1usize << 63) + low, u32::MAX as usize, u32::MAX as usize + 1]),
+                };
                 misuse += 1;
                 if model.eval_partial_deriv(k).is_ok() {
                     return (obs, misuse, Some(format!("step {step}: eval_partial_deriv({k}) with P={np} returned Ok")));
@@ -264,7 +272,7 @@ pub fn miri_shards(ctx: &Ctx, prop: &str, shards: u64, cases: &str, nmax: &str) 
 }
 
 pub fn run(ctx: &Ctx) {
-    ctx.rule("builder-made models (1..6 parameters, functions of arity 1..6 over ordered subsets, invariant functions, N in 1..9, f32/f64) driven through histories of 12 (quick) / 40 (thorough) operations mixing valid updates with misuse: a function or a derivative closure at a random position returning a vector that is empty / one shorter / one longer / much longer than N (in a third of the function cases a second function misbehaves in the same evaluation with the complementary length 2N-l; sometimes every basis function returns the same wrong length), derivative indices P, P+1 and far beyond, parameter vectors of length 0, P-1, P+1 and more. Each misuse must return Err (never a panic, never Ok with a mis-shaped matrix); after every operation params(), eval() and every eval_partial_deriv(k) are compared bitwise with the snapshot taken after the last accepted update. non-trivial = history contains at least one misuse operation; distinct = (specification, case)");
+    ctx.rule("builder-made models (1..6 parameters, functions of arity 1..6 over ordered subsets, invariant functions, N in 1..9, f32/f64) driven through histories of 12 (quick) / 40 (thorough) operations mixing valid updates with misuse: a function or a derivative closure at a random position returning a vector that is empty / one shorter / one longer / much longer than N (in a third of the function cases a second function misbehaves in the same evaluation with the complementary length 2N-l; sometimes every basis function returns the same wrong length), derivative indices P, P+1, far beyond, and indices >= 2^32 whose low 32 bits are a valid index, parameter vectors of length 0, P-1, P+1 and more. Each misuse must return Err (never a panic, never Ok with a mis-shaped matrix); after every operation params(), eval() and every eval_partial_deriv(k) are compared bitwise with the snapshot taken after the last accepted update. non-trivial = history contains at least one misuse operation; distinct = (specification, case)");
     let t = ctx.tier;
     let len = t.pick(12, 40);
     ctx.run_cases("misuse-histories", t.pick(25000, 450000), t.pick(15.0, 900.0), |r, c, o| case(r, c, o, len));
